@@ -353,13 +353,18 @@ where
     /// ```
     pub fn disconnect(&self, other: &K) -> Result<E, Error> {
         match self.find_outbound(other) {
-            Some(other) => match self.inner.2.borrow_mut().remove_outbound(other.key()) {
-                Ok(edge) => {
-                    other.inner.2.borrow_mut().remove_inbound(self.key())?;
-                    Ok(edge)
+            Some(other) => {
+                // The borrow of this node's adjacency list must end before the
+                // other node is touched: `other` may be `self` (self-loop).
+                let removed = self.inner.2.borrow_mut().remove_outbound(other.key());
+                match removed {
+                    Ok(edge) => {
+                        other.inner.2.borrow_mut().remove_inbound(self.key())?;
+                        Ok(edge)
+                    }
+                    Err(err) => Err(err),
                 }
-                Err(err) => Err(err),
-            },
+            }
             None => Err(Error::EdgeNotFound),
         }
     }
